@@ -1,7 +1,7 @@
 (** C07 — in reachable states neither the slot assignment nor processBatch fails: no "no available cache slots",
     no nil dereference in findBestCacheSlot, no shift error, no negative slice bound (with the two C07 patches). *)
 From Coq Require Import List ZArith NArith Bool Arith Lia ZifyBool ZifyNat.
-From V Require Import Common.Bytes Runner.Stop Slots.Model Slots.ProofsKv Slots.ProofsSlots Slots.ProofsBatch.
+From V Require Import Common.Bytes Slots.StopFns Slots.Model Slots.ProofsKv Slots.ProofsSlots Slots.ProofsBatch.
 Import ListNotations.
 Open Scope Z_scope.
 
